@@ -183,6 +183,36 @@ M('M09.11', 'C09', 'atomman/lammps/style.py', "        params['velocity'] =     
   'electron velocity entry dimension')
 M('M09.12', 'C09', 'atomman/unitconvert.py', "                nu.s = (nu.kg * nu.m**2 / J)**0.5", "                nu.s = (nu.kg * nu.m**2 / J)", 'time derived without root')
 
+# ---- C10 -------------------------------------------------------------------
+M('M10.1', 'C10', 'atomman/unitconvert.py', "        datamodel['shape'] = list(shape)", "        datamodel['shape'] = list(shape)[::-1]",
+  'shape stored reversed (rank >= 2, non-square)')
+M('M10.2', 'C10', 'atomman/core/Box.py', "            model['box']['origin']= uc.model(self.origin, length_unit)", "            model['box']['origin']= uc.model(self.origin, None)",
+  'origin stored without a unit (only visible across a restart)')
+M('M10.3', 'C10', 'atomman/core/System.py',
+  "                if prop['data'].get('unit', None) == 'scaled':\n                    self.atoms.view[prop['name']] = self.box.position_relative_to_cartesian(self.atoms.view[prop['name']])",
+  "                if prop['data'].get('unit', None) == 'scaled' and prop['name'] == 'pos':\n                    self.atoms.view[prop['name']] = self.box.position_relative_to_cartesian(self.atoms.view[prop['name']])",
+  'scaled properties other than pos are not unscaled on read')
+M('M10.4', 'C10', 'atomman/core/System.py', "        for symbol in self.symbols:\n            model['atomic-system'].append('atom-type-symbol', symbol)",
+  "        for symbol in self.symbols:\n            if symbol is not None:\n                model['atomic-system'].append('atom-type-symbol', symbol)",
+  'None symbols dropped when writing (gapped types shift)')
+M('M10.5', 'C10', 'atomman/unitconvert.py', "        value = set_in_units(term['value'], unit)\n    \n    if 'shape' in term:\n        shape = tuple(term['shape'])\n        value = value.reshape(shape)\n    \n    return value\n    \ndef error_unit",
+  "        value = get_in_units(term['value'], unit)\n    \n    if 'shape' in term:\n        shape = tuple(term['shape'])\n        value = value.reshape(shape)\n    \n    return value\n    \ndef error_unit",
+  'value_unit divides instead of multiplies (invisible when the unit is a working unit)')
+M('M10.6', 'C10', 'atomman/core/System.py', "        model['atomic-system']['periodic-boundary-condition'] = self.pbc.tolist()",
+  "        model['atomic-system']['periodic-boundary-condition'] = sorted(self.pbc.tolist())", 'pbc flags sorted')
+M('M10.7', 'C10', 'atomman/core/ElasticConstants.py', "            model['elastic-constants']['Cij'] = uc.model(normCij, unit)",
+  "            model['elastic-constants']['Cij'] = uc.model(np.triu(normCij), unit)", 'only the upper triangle of Cij is stored')
+M('M10.8', 'C10', 'atomman/core/Atoms.py', "        if 'pos' in prop_unit and prop_unit['pos'] is None:\n            prop_unit['pos'] = 'angstrom'",
+  "        if 'pos' in prop_unit and prop_unit['pos'] is None:\n            pass", 'pos default unit dropped (positions stored unit-less)')
+M('M10.9', 'C10', 'atomman/unitconvert.py', "        datamodel['value'] = value.flatten().tolist()", "        datamodel['value'] = value.flatten(order='F').tolist()",
+  'higher-rank arrays flattened in Fortran order')
+M('M10.10', 'C10', 'atomman/core/System.py', "            if masses is None:\n                masses = tuple(model.aslist('atom-type-mass'))",
+  "            if masses is None:\n                masses = tuple(m for m in model.aslist('atom-type-mass') if m is not None)", 'None masses dropped on read')
+M('M10.11', 'C10', 'atomman/unitconvert.py', "        datamodel['value'] = value.tolist()\n        if error is not None:\n            datamodel['error'] = np.asarray(error).tolist()",
+  "        datamodel['value'] = value\n        if error is not None:\n            datamodel['error'] = error", 'revert of the scalar-as-Python-number fix')
+M('M10.12', 'C10', 'atomman/core/Box.py', "            self.set(avect=avect, bvect=bvect, cvect=cvect, origin=origin)", "            self.set(avect=avect, bvect=cvect, cvect=bvect, origin=origin)",
+  'b and c vectors swapped on read')
+
 
 def _flex(old):
     """Regex for `old` that tolerates trailing blanks and whitespace-only lines."""
